@@ -1,4 +1,5 @@
 import Proofs.CrashRun
+import Proofs.CrashBatch
 import Proofs.CrashCache
 import Model.CacheTree
 import Spec.C01
@@ -94,21 +95,17 @@ theorem C04_crash_during_recovery {c : Cfg} {d : Store} (hd : DInv c d) :
 /-! ## 2. histories of steps and crashes -/
 
 /-- what the property demands after one more operation (`σ` before, `σ'` after; `base` = durable image before the
-operation, `node` = the running node after it) -/
-structure Recovered (c : Cfg) (σ σ' : RunSt) : Prop where
-  /-- recorded chain height, recorded state and stored blocks agree (`Inv.hs`, `Inv.tip`, `Inv.chain`) -/
-  inv : Inv c σ'.node
-  /-- the node's chain is valid (C01's predicate) -/
-  valid : ValidChain c σ'.node.store
-  /-- the durable state is the node's state -/
-  synced : Synced c σ'.node
-  /-- the node's store is the durable image plus the writes of the operation -/
-  image : σ'.node.store = σ'.base.applyAll σ'.ws
-  /-- durable image before the previous operation → before this one: no height skipped, no committed block replaced
-  (for a crash: `σ'.base` is the image the node restarted from) -/
-  durable : Adv c σ.base σ'.base
-  /-- what the operation itself (a step, or the restart) did to its image: the same -/
-  memory : Adv c σ'.base σ'.node.store
+operation, `node` = the running node after it):
+* recorded chain height, recorded state and stored blocks agree (`Inv.hs`, `Inv.tip`, `Inv.chain`);
+* the node's chain is valid (C01's predicate);
+* the durable state is the node's state;
+* the node's store is the durable image plus the writes of the operation;
+* durable image before the previous operation → before this one: no height skipped, no committed block replaced
+  (for a crash: `σ'.base` is the image the node restarted from);
+* what the operation itself (a step, or the restart) did to its image: the same. -/
+def Recovered (c : Cfg) (σ σ' : RunSt) : Prop :=
+  Inv c σ'.node ∧ ValidChain c σ'.node.store ∧ Synced c σ'.node ∧ σ'.node.store = σ'.base.applyAll σ'.ws ∧
+  Adv c σ.base σ'.base ∧ Adv c σ'.base σ'.node.store
 
 /-- **The full property**: for *every* history (no exclusion) no restart fails, the node and its image agree, and the
 node is never left unable to produce: two well-formed answers raise the height. -/
@@ -153,6 +150,38 @@ theorem C04_committed_never_replaced (c : Cfg) (hpos : 1 ≤ c.initialHeight) (o
   obtain ⟨σ1, hr1, hg1, _⟩ := runOps_good (good_init c hpos) ops1
   obtain ⟨σ2, hr2, hg2, he⟩ := runOps_good hg1 ops2
   exact ⟨σ1, σ2, hr1, by rw [runOps_append _ hr1]; exact hr2, he, he.trans (good_store_adv hg2).ext⟩
+
+/-- **Every committed block is the block of one batch of the history, across crashes and restarts.**  For every
+history `ops` of steps and crashes there is an index function `f` such that every height `h` above the initial height
+and at most the chain height of the node at the end holds a block whose transactions are exactly those (same list,
+same order) of the batch answered at step `ops[f h]` and whose header time is that batch's timestamp; `f` is strictly
+increasing in `h`.  A block that was built, survived a crash as the block waiting at `height + 1` (or failed
+execution) and was committed later by "using pending block" has the batch **taken when it was first built**; a block
+lost in a crash before it was durable has no say: the height is built again from a later batch.  The same holds for
+**every** block stored above the initial height in every crash image of the last operation (in particular the block
+waiting at `height + 1`), and the block at the initial height is the empty genesis block. -/
+theorem C04_blocks_are_their_batches (c : Cfg) (hpos : 1 ≤ c.initialHeight) (ops : List Op) :
+    ∃ σ (f : Nat → Nat), runOps c (initSt c) ops = .ok σ ∧
+      (∀ h, c.initialHeight < h → h ≤ σ.node.store.height →
+        ∃ b txs ts bd e, σ.node.store.getBlock h = some b ∧
+          ops[f h]? = some (.step (.batch txs ts bd) e) ∧ b.data.txs = txs ∧ b.sh.hdr.time = ts) ∧
+      (∀ h h', c.initialHeight < h → h < h' → h' ≤ σ.node.store.height → f h < f h') ∧
+      (∀ k h b, c.initialHeight < h → (σ.base.applyPrefix k σ.ws).getBlock h = some b →
+        ∃ txs ts bd e, ops[f h]? = some (.step (.batch txs ts bd) e) ∧ b.data.txs = txs ∧ b.sh.hdr.time = ts) ∧
+      (∀ k b, (σ.base.applyPrefix k σ.ws).getBlock c.initialHeight = some b →
+        b.data.txs = [] ∧ b.sh.hdr.time = c.genesisTime) := by
+  obtain ⟨σ, f, hr, hg, hs⟩ := runOps_src (good_init c hpos) (src_init c (fun _ => 0)) ops
+  rw [List.nil_append] at hs
+  obtain ⟨hn, _⟩ := hs.node hg
+  have hi := hg.inv
+  refine ⟨σ, f, hr, fun h h1 h2 => ?_, fun h h' h1 h2 h3 => ?_, fun k h b h1 hb => ?_, fun k b hb => (hs.image k).2 b hb⟩
+  · obtain ⟨b, hb, _⟩ := hi.chain h (by omega) h2
+    obtain ⟨txs, bd, e, hop, htx⟩ := hn h b h1 hb
+    exact ⟨b, txs, b.sh.hdr.time, bd, e, hb, hop, htx, rfl⟩
+  · obtain ⟨b, hb, _⟩ := hi.chain h' (by omega) h3
+    exact hs.mono h h' h1 h2 (by rw [hb]; simp)
+  · obtain ⟨txs, bd, e, hop, htx⟩ := (hs.image k).1 h b h1 hb
+    exact ⟨txs, b.sh.hdr.time, bd, e, hop, htx, rfl⟩
 
 /-- after **any** history production resumes: one well-formed answer commits the next block (whether or not a block
 is waiting at `height + 1`) -/
@@ -225,10 +254,24 @@ theorem C04_old_witness_recovers : ∃ σ σ', runOps wCfg (initSt wCfg) wOps = 
 `Model/CacheDir.lean`: at a clean stop `SaveCache` rewrites eight gob files one after the other; a crash can fall
 before, inside or after the save of each; `NewManager` fails when `LoadCache` fails.  What a crash *inside* the save
 of a file leaves at its path depends on how `saveMapGob` replaces the file, and that is a **regenerated fact**
-(`Gen.C04.cacheSaveAtomic`, measured on every run: the real `SaveToDisk` run over an existing directory gives every
-path a new inode and leaves the old inodes — held open and hard-linked — byte for byte alone), as is the fact that
-`LoadFromDisk` does not look at left-over `.tmp` files (`Gen.C04.cacheLoadIgnoresTmp`).  `CacheDir.tree` is the pair
-of them; the compiled driver interprets `restart cut=…` with it. -/
+(`Gen.C04.cacheSaveAtomic`), measured on every run from the **system calls** of the real `SaveToDisk` (run in a child
+process under `strace` over an existing directory): no target path is opened for writing, created, truncated, unlinked
+or renamed away (`cacheSaveNoTruncateInPlace`); every target path is only the destination of a rename from another
+path in the same directory (`cacheSaveViaRename`); the renamed file was `fsync`ed after its last write and before the
+rename (`cacheSaveSyncBeforeRename`); cross-checked on the outcome (`cacheSaveInodeCheck`: new inode at every path, the
+old inodes — held open and hard-linked — byte for byte alone; that alone would also accept remove + create + encode).
+So is the fact that `LoadFromDisk` does not look at left-over `.tmp` files (`Gen.C04.cacheLoadIgnoresTmp`).
+`CacheDir.tree` is the pair; the compiled driver interprets `restart cut=…` with it.  A save that renames without
+syncing first counts as **not** atomic: after a power failure the renamed file may be empty or cut off, the same image
+as an in-place truncation.
+
+Trusted to the file system, not proved: `rename(2)` replaces a path atomically, and `fsync` makes the temporary file's
+bytes durable before the rename can become durable.  Not claimed: the directory is not `fsync`ed (after a power failure
+a finished save may be rolled back to the **old** complete file — an image the model contains); the temporary name is
+fixed (`<file>.tmp`; two concurrent saves of one directory are outside the model, `SaveCache` runs once, at stop); the
+eight files are not replaced as one consistent set — mixed generations are reachable and are exactly what
+`crashImages` ranges over; a cache file that does not decode (disk corruption, not a crash of the node) is still
+fatal to start-up (`startWithCaches`, `.loadCache`). -/
 
 open CacheDir
 
@@ -254,6 +297,14 @@ loads beside left-over `.tmp` files.  `Gen/C04.lean` is regenerated on every run
 in place this `decide` fails, the check goes to its search and the monitor `C04/restart-fails/cache-file-truncated`
 produces the failing input. -/
 theorem C04_tree_saves_atomically : CacheDir.tree = { saveAtomic := true, loadIgnoresTmp := true } := by decide
+
+/-- the components of `Gen.C04.cacheSaveAtomic`, one by one (so that a failing obligation names what changed): the
+system calls of the real save — nothing in place, rename only, sync before the rename — and the inode cross-check -/
+theorem C04_tree_save_syscalls :
+    Gen.C04.cacheSaveNoTruncateInPlace = true ∧ Gen.C04.cacheSaveViaRename = true ∧
+    Gen.C04.cacheSaveSyncBeforeRename = true ∧ Gen.C04.cacheSaveInodeCheck = true ∧
+    Gen.C04.cacheSaveAtomic = (Gen.C04.cacheSaveNoTruncateInPlace && Gen.C04.cacheSaveViaRename &&
+      Gen.C04.cacheSaveSyncBeforeRename && Gen.C04.cacheSaveInodeCheck) := by decide
 
 /-- the files the real `SaveCache` leaves are the eight files of the model, in its order -/
 theorem C04_cache_file_names : Gen.C04.cacheFileNames = CacheDir.fileNames := by decide
